@@ -81,7 +81,9 @@ func init() {
 		oth := uu.ID{Higher: ^id.Higher, Lower: id.Lower + 1}
 		_, _ = oth.MarshalText()
 		_, _ = uu.DefaultFormatter(nil, oth, uu.FormatURN)
-		e["held"], e["heldf"] = S(held), S(heldF)
+		hs, hu := id.String(), id.URN()
+		_, _ = oth.String(), oth.URN()
+		e["held"], e["heldf"], e["helds"], e["heldu"] = S(held), S(heldF), S(hs), S(hu)
 		e["version"], e["variant"] = id.Version(), id.Variant()
 		lower := string(f0)
 		upper := strings.ToUpper(lower)
